@@ -87,6 +87,7 @@ def main(tier, seed):
             if rng.random() < 0.25: p = p + idiom_loop(rng, rng.choice([99, 100, 101, 102, 150]))
             if rng.random() < 0.2: p = p + idiom_read(rng) + idiom_print(rng)
             if rng.random() < 0.08: p = (p[:4] if rng.random() < 0.5 else []) + idiom_return_after_stop(rng)
+            if rng.random() < 0.04: p = idiom_jump_from_zero(rng) + (idiom_print(rng) if rng.random() < 0.5 else [])
             progs.append((p, rand_stdin(rng)))
         encs = [(enc_prog(p), enc_text(i)) for p, i in progs]
         # classify with the model: does the unoptimised run end within the step cap?
